@@ -68,7 +68,12 @@ def main():
         for cid in checks:
             ev = os.path.join(VERIF, "evidence", cid + ".json")
             saved = open(ev).read() if os.path.exists(ev) else None
-            r = run([os.path.join(VERIF, "check"), cid, "--tier", "quick"], env=dict(os.environ, VERIF_REPO=mut))
+            try:
+                r = run([os.path.join(VERIF, "check"), cid, "--tier", "quick"], env=dict(os.environ, VERIF_REPO=mut), timeout=1500)
+            except subprocess.TimeoutExpired:
+                detected[cid] = dict(exit="timeout", violations=0, first=[])
+                print(f"   {cid}: TIMEOUT")
+                continue
             viol = [l for l in r.stdout.splitlines() if l.startswith("VIOLATION")]
             sigs = [l.strip()[:260] for l in r.stdout.splitlines() if l.startswith("  sig=")]
             detected[cid] = dict(exit=r.returncode, violations=len(viol), first=sigs[:2])
@@ -84,8 +89,13 @@ def main():
             out = os.path.join(VERIF, "seeded", name)
             os.makedirs(out, exist_ok=True)
             open(os.path.join(out, "patch.diff"), "w").write(newpatch)
-            shutil.copy(demo, os.path.join(out, os.path.basename(demo)))
+            if os.path.abspath(demo) != os.path.abspath(os.path.join(out, os.path.basename(demo))):
+                shutil.copy(demo, os.path.join(out, os.path.basename(demo)))
             notes = os.path.join(seed_dir, "notes.txt")
+            old_meta = os.path.join(out, "meta.json")
+            if not os.path.exists(notes) and os.path.exists(old_meta):
+                meta["needs_to_manifest"] = json.load(open(old_meta)).get("needs_to_manifest")
+                meta["source"] = json.load(open(old_meta)).get("source")
             if os.path.exists(notes):
                 meta["needs_to_manifest"] = open(notes).read()[:1500]
             meta["what_i_ran"] = ["git apply patch.diff in a scratch clone of /repo HEAD", "baseline pytest suite in the clone (PYTHONPATH=clone/src)",
